@@ -3,6 +3,7 @@
 package checks
 
 import (
+	"strconv"
 	"encoding/json"
 	"fmt"
 	"os"
@@ -550,7 +551,98 @@ func c09Shape(set map[string]c09Var, n string) string {
 	return fmt.Sprintf("%d-uses", len(v.Uses))
 }
 
+// c09OddNames: script names are arbitrary strings (the loader's callers pass file names): the empty
+// name, names holding per-cent signs, blanks, several dots, non-ASCII letters. For every ordered pair
+// of such names: a script using a missing one, a valid pair, a two-script cycle, a self-use - verdicts
+// by reachability under every link order, accepted calls bound, and the report of a rejected script
+// spells the names involved as they are.
+func c09OddNames(w *run.Worker) {
+	names := []string{"", "%s%d.p", "100%.p", "a b.p", "é.p", "-", "x.y.p", "%v"}
+	useSrc := func(t string) string { return "p(1)\n use(" + strconv.Quote(t) + ")\n" }
+	for _, x := range names {
+		for _, y := range names {
+			for shape := 0; shape < 4; shape++ {
+				if shape == 3 && x != y {
+					continue
+				}
+				if shape != 3 && x == y {
+					continue
+				}
+				if !w.Take() {
+					continue
+				}
+				var srcs map[string]string
+				want := map[string]bool{}
+				var mention map[string][]string
+				switch shape {
+				case 0: // x uses y, y is not in the set
+					srcs = map[string]string{x: useSrc(y)}
+					want[x] = false
+					mention = map[string][]string{x: {y}}
+				case 1: // x uses y, y valid
+					srcs = map[string]string{x: useSrc(y), y: "p(2)\n"}
+					want[x], want[y] = true, true
+				case 2: // x uses y, y uses x
+					srcs = map[string]string{x: useSrc(y), y: useSrc(x)}
+					want[x], want[y] = false, false
+					mention = map[string][]string{x: {x, y}, y: {x, y}}
+				case 3: // x uses itself
+					srcs = map[string]string{x: useSrc(x)}
+					want[x] = false
+					mention = map[string][]string{x: {x}}
+				}
+				var ord []string
+				for n := range srcs {
+					ord = append(ord, n)
+				}
+				sort.Strings(ord)
+				for _, lo := range permutations(ord) {
+					w.Eval()
+					ok, errs := c09Load(srcs, ord, lo)
+					cs := c09Case{Scripts: srcs, ParseOrd: ord, LinkOrd: lo}
+					desc := fmt.Sprintf("scripts %q, link order %q", srcs, lo)
+					w.Outcome(fmt.Sprintf("odd-names|%d|%v", shape, len(ok)))
+					for n, acc := range want {
+						_, got := ok[n]
+						if got != acc {
+							why := ""
+							if e := errs[n]; e != nil {
+								why = e.Error()
+							}
+							w.Violate(fmt.Sprintf("C09:odd-names:verdict:shape%d", shape), fmt.Sprintf("script %q: accepted=%v, reference says %v (%s)\n%s", n, got, acc, why, desc), cs)
+							continue
+						}
+						if acc {
+							for _, call := range c09UseCalls(ok[n].Ast) {
+								tgt := call.Param[0].StringLiteral().Val
+								if bound, _ := call.PrivateData.(*plrt.Script); bound == nil || bound != ok[tgt] {
+									w.Violate("C09:odd-names:use-bound-to-wrong-script", fmt.Sprintf("in %q, use(%q) is bound to %p, the accepted script is %p\n%s", n, tgt, bound, ok[tgt], desc), cs)
+								}
+							}
+							continue
+						}
+						e := errs[n]
+						if e == nil {
+							w.Violate("C09:odd-names:rejected-without-error", fmt.Sprintf("script %q\n%s", n, desc), cs)
+							continue
+						}
+						for _, m := range mention[n] {
+							if m != "" && !strings.Contains(e.Error(), m) {
+								w.Violate("C09:odd-names:report-does-not-spell-the-name", fmt.Sprintf("the report for %q does not contain the name %q as it is: %q\n%s", n, m, e.Error(), desc), cs)
+							}
+						}
+						if strings.Contains(e.Error(), "%!") {
+							w.Violate("C09:odd-names:report-garbled", fmt.Sprintf("the report for %q went through a formatter as a format: %q\n%s", n, e.Error(), desc), cs)
+						}
+					}
+				}
+			}
+		}
+	}
+}
+
 func c09Run(w *run.Worker) {
+	c09OddNames(w)
 	if raw, err := os.ReadFile(run.VerifDir + "/.cache/overlay/status.json"); err == nil {
 		var st struct {
 			Missing []string `json:"missing"`
